@@ -1427,3 +1427,13 @@ class LoopVariable:
 
     def visitExpression(self, node):
         self._loop_reference_detected(node)
+
+    # tags: the expressions in their attributes, then their bodies
+    def visitCallTag(self, node):
+        self._loop_reference_detected(node)
+
+    visitCallNamespaceTag = visitCallTag
+    visitIncludeTag = visitCallTag
+    visitBlockTag = visitCallTag
+    visitDefTag = visitCallTag
+    visitTextTag = visitCallTag
